@@ -1374,17 +1374,14 @@ theorem validateRequestBodyD_eq (reg : List (Str × DecK)) (rb : ReqBody) (ct : 
           unfold caseWF at hw
           simp only [hdv, Bool.not_true, Bool.false_or, Bool.and_eq_true] at hn hw
           have hvis := visD_neutral exro s v hw.1 hw.2 hn
-          by_cases hu : dfltUnderNot s = true
-          · simp [hu] at hmod
-          · simp only [hu, Bool.false_eq_true, if_false]
-            cases hx : visD true exro s v with
-            | none =>
-              rw [hx] at hvis
-              simp only [Option.isSome_none] at hvis
-              simp [← hvis]
-            | some v' =>
-              rw [hx] at hvis
-              simp only [Option.isSome_some] at hvis
-              simp [← hvis]
+          cases hx : visD true exro s v with
+          | none =>
+            rw [hx] at hvis
+            simp only [Option.isSome_none] at hvis
+            simp [← hvis]
+          | some v' =>
+            rw [hx] at hvis
+            simp only [Option.isSome_some] at hvis
+            simp [← hvis]
 
 end KinModel.Body
